@@ -22,7 +22,7 @@ noncomputable section
 theorem dlamdv_eq2 (p : SedovFuncsO2.P) (v : ℝ) (B : O2.Bases p v) :
     SedovFuncsO2.L1.dlamdv p v = SedovFuncsO2.L1.l_fun_dv p v := by
   obtain ⟨hs1, hs2, hs4, hs3⟩ := B
-  simp only [epv_deriv, epv_leaf]
+  simp only [epv_semi_deriv, epv_semi_leaf]
   generalize Real.exp ((p.gamp1 * ((1 : ℝ) / ((2 : ℝ) * p.e_val))) * (((1 : ℝ) - (p.a_val * v)) * ((1 : ℝ) / ((p.a_val * v) - ((((1 : ℝ) / 2) * p.gamp1) / p.gamma))))) = Ex
   generalize (p.b_val * ((p.c_val * v) - (1 : ℝ))) ^ (p.gamm1 * ((1 : ℝ) / ((2 : ℝ) * p.e_val))) = Bq
   generalize (p.a_val * v) ^ (-p.a0) = A
@@ -36,7 +36,7 @@ theorem dlamdv_eq2 (p : SedovFuncsO2.P) (v : ℝ) (B : O2.Bases p v) :
   ring
 
 theorem h_pos2 (p : SedovFuncsO2.P) (v : ℝ) (B : O2.Bases p v) : 0 < SedovFuncsO2.L1.h_fun p v := by
-  simp only [epv_leaf]
+  simp only [epv_semi_leaf]
   exact mul_pos (mul_pos (Real.rpow_pos_of_pos B.x1 _) (Real.rpow_pos_of_pos B.x2 _)) (Real.rpow_pos_of_pos B.x4 _)
 
 theorem efun01_eq2 (p : SedovFuncsO2.P) (v : ℝ) (B : O2.Bases p v) (kn : ℕ) (hgeo : p.geometry = kn) (h1 : 1 ≤ kn) :
@@ -44,7 +44,7 @@ theorem efun01_eq2 (p : SedovFuncsO2.P) (v : ℝ) (B : O2.Bases p v) (kn : ℕ) 
       * psi1 (SedovFuncsO2.L1.l_fun p) (SedovFuncsO2.L1.l_fun_dv p) (SedovFuncsO2.L1.g_fun p) (fun v => p.a_val * v) kn v := by
   have he : SedovFuncsO2.L1.efun01 p v = SedovFuncsO2.L1.dlamdv p v * SedovFuncsO2.L1.l_fun p v ^ (p.geometry + 1) * p.gpogm
       * SedovFuncsO2.L1.g_fun p v * v ^ 2 := by
-    simp only [epv_leaf]
+    simp only [epv_semi_leaf]
   have hl := O2.l_pos p v B
   have ha : p.a_val ≠ 0 := left_ne_zero_of_mul B.x1.ne'
   have hpow : SedovFuncsO2.L1.l_fun p v ^ (p.geometry + 1) = SedovFuncsO2.L1.l_fun p v ^ (kn - 1) * SedovFuncsO2.L1.l_fun p v ^ 2 := by
@@ -60,7 +60,7 @@ theorem efun02_eq2 (p : SedovFuncsO2.P) (v : ℝ) (B : O2.Bases p v) (kn : ℕ) 
       * psi2 (SedovFuncsO2.L1.l_fun p) (SedovFuncsO2.L1.l_fun_dv p) (SedovFuncsO2.L1.h_fun p) kn v := by
   have he : SedovFuncsO2.L1.efun02 p v = SedovFuncsO2.L1.dlamdv p v * SedovFuncsO2.L1.l_fun p v ^ (p.geometry - 1)
       * SedovFuncsO2.L1.h_fun p v * (8 / ((p.geometry + 2 - p.omega) ^ 2 * p.gamp1)) := by
-    simp only [epv_leaf]
+    simp only [epv_semi_leaf]
   have hpow : SedovFuncsO2.L1.l_fun p v ^ (p.geometry - 1) = SedovFuncsO2.L1.l_fun p v ^ (kn - 1) := by
     have e : p.geometry - 1 = ((kn - 1 : ℕ) : ℝ) := by rw [hgeo, Nat.cast_sub h1]; push_cast; ring
     rw [e, Real.rpow_natCast]
@@ -71,7 +71,7 @@ theorem efun02_eq2 (p : SedovFuncsO2.P) (v : ℝ) (B : O2.Bases p v) (kn : ℕ) 
 /-- the pressure similarity function (omega2) is continuous on the closed vacuum branch -/
 theorem h_continuousOn2 {p : SedovFuncsO2.P} (s : Set ℝ) (hs : ∀ v ∈ s, Mass.VacBases2 p v) (ha5 : 0 < p.a5 + 1) :
     ContinuousOn (SedovFuncsO2.L1.h_fun p) s := by
-  unfold SedovFuncsO2.L1.h_fun
+  rw [(funext (EPV.Bridge.Semi.SedovFuncsO2_L1_h_fun p) : SedovFuncsO2.L1.h_fun p = _)]
   refine (ContinuousOn.mul (ContinuousOn.rpow_const (by fun_prop) ?_) (ContinuousOn.rpow_const (by fun_prop) ?_)).mul
     (ContinuousOn.rpow_const (by fun_prop) ?_)
   · intro v hv; exact Or.inl (hs v hv).x1.ne'
@@ -145,13 +145,13 @@ theorem eval_o2 {p : SedovFuncsO2.P} {γ ω : ℝ} (kn : ℕ) (h1 : 1 ≤ kn) (h
   have hL' : ∀ v ∈ Ioo (v2 γ k ω) (vv k ω), SedovFuncsO2.L1.l_fun_dv p v < 0 :=
     fun v hv => O2.l_dv_neg hC (hint v hv) hω2
   have hf' : ∀ v ∈ Ioo (v2 γ k ω) (vv k ω), f (SedovFuncsO2.L1.l_fun p v) = p.a_val * v * SedovFuncsO2.L1.l_fun p v := by
-    intro v hv; rw [hf v hv]; simp only [epv_leaf]
+    intro v hv; rw [hf v hv]; simp only [epv_semi_leaf]
   obtain ⟨⟨I1, E1⟩, ⟨I2, E2⟩⟩ := branch_anti Br hL' f g h hf' hg hh
   obtain ⟨N1, N2⟩ := Br.pos_anti hL' (fun v hv => h_pos2 p v (hB v hv))
   rw [(Mass.at_v2_2 hC P).1] at I1 E1 I2 E2
   have hBvv := Mass.vacBases2 hC (hcl _ (right_mem_Icc.mpr Br.hab.le)).signs
   have hlvv_pos : 0 < SedovFuncsO2.L1.l_fun p (vv k ω) := by
-    simp only [epv_leaf]
+    simp only [epv_semi_leaf]
     exact mul_pos (mul_pos (Real.rpow_pos_of_pos hBvv.x1 _) (Real.rpow_pos_of_pos hBvv.x2 _)) (Real.exp_pos _)
   have hlvv_le : SedovFuncsO2.L1.l_fun p (vv k ω) ≤ 1 := by
     have hanti : AntitoneOn (SedovFuncsO2.L1.l_fun p) (Icc (v2 γ k ω) (vv k ω)) := by
